@@ -394,11 +394,37 @@ class SpyModel(object):
             out.append('POST_FIFO:%s' % s)
         elif op == 'scribble':
           out.append(extra_text(extra, sig))
+        elif op == 'clear_spy':
+          out.append(CLEAR)     # from here on the full spy starts afresh; the step's own log is not touched
       elif what == 'dispatch':
         cur_sig = sig
     if pending:
       out.append(pending)
     return out
+
+
+CLEAR = '<<clear_spy>>'
+
+
+def _no_marks(lines):
+  return [x for x in lines if x is not CLEAR]
+
+
+def _clear_at_step_start(lines):
+  """the full spy receives a step's lines when the step ends: a clear_spy() made during the step removes what
+  earlier steps logged, not the lines of the step in progress - the mark moves to the front of the step's lines"""
+  if CLEAR in lines:
+    return [CLEAR] + _no_marks(lines)
+  return lines
+
+
+def _after_clear(lines):
+  """what the full spy holds: the lines logged since the last clear_spy()"""
+  k = None
+  for i, x in enumerate(lines):
+    if x is CLEAR:
+      k = i
+  return lines if k is None else lines[k + 1:]
 
 
 def extra_text(extra, sig):
@@ -436,7 +462,7 @@ def check_spy(run, res):
         if r[0] == 'dispatch':
           seen = True
         (rest if seen else pre).append(r)
-      log = (['START'] + sm.lines(pre))
+      log = _clear_at_step_start(['START'] + sm.lines(pre))
       if len(log) > RTC:
         return    # the per-step ring truncated the start log: not modelled
       if host == 'instrumented':
@@ -446,16 +472,18 @@ def check_spy(run, res):
           return
       elif host == 'queued':
         refl = '<- Queued:(%d) Deferred:(%d)' % (len(ob.queue or []), len(ob.deferred or []))
-        if not _cmp_lines(res, 'spy-rtc', {'op': 'start'}, head, log + [refl], ob.spy_rtc):
+        if not _cmp_lines(res, 'spy-rtc', {'op': 'start'}, head, _no_marks(log) + [refl], ob.spy_rtc):
           return
-        if not _cmp_lines(res, 'spy-full', {'op': 'start'}, head, (log + [refl])[-SPY:], ob.spy_full):
+        if not _cmp_lines(res, 'spy-full', {'op': 'start'}, head, (_after_clear(log) + [refl])[-SPY:], ob.spy_full):
           return
       else:
         # active object: its thread may already have taken steps; compare the prefix
         full = ob.spy_full or []
+        rest_lines = sm.lines(rest)
+        if CLEAR in log or CLEAR in rest_lines:
+          continue      # cleared while the thread of the active object was already taking steps: the prefix is gone
         if len(full) < SPY and not _cmp_lines(res, 'spy-full', {'op': 'start'}, head, log, full[:len(log)]):
           return
-        sm.lines(rest)
       continue
     if k == 'defer':
       sm.deferred.append(ob.op[1])
@@ -481,7 +509,7 @@ def check_spy(run, res):
       return     # a different number of steps than predicted: C14's subject
     added, last = [], None
     for (m, recs), p in zip(segs, preds):
-      ln = sm.lines([m] + recs)
+      ln = _clear_at_step_start(sm.lines([m] + recs))
       if len(ln) + 1 > RTC:
         return
       # a handler that called stop() has put the stop marker into the object's queue: it is counted by the reflection
@@ -492,10 +520,10 @@ def check_spy(run, res):
       last = ['<- Queued:(%d) Deferred:(%d)' % (len(ob.model_q or []), len(ob.model_d or []))]
       added = list(last)
     if host == 'queued' and last is not None:
-      if not _cmp_lines(res, 'spy-rtc', {'op': k}, head, last, ob.spy_rtc):
+      if not _cmp_lines(res, 'spy-rtc', {'op': k}, head, _no_marks(last), ob.spy_rtc):
         return
     if ob.spy_full_before is not None:
-      if not _cmp_lines(res, 'spy-full', {'op': k}, head, (ob.spy_full_before + added)[-SPY:], ob.spy_full):
+      if not _cmp_lines(res, 'spy-full', {'op': k}, head, _after_clear(ob.spy_full_before + added)[-SPY:], ob.spy_full):
         return
 
 
